@@ -190,7 +190,9 @@ Record env := {
   nv_vf : cbk -> bytes -> verdict;     (* validator of handler k called with argument a *)
   nv_queued : bytes -> verdict;        (* handle_queued validator for message content a *)
   nv_qf : bytes -> qres;               (* handoff of the envelope whose sender is a *)
-  nv_hs : bool                         (* the TLS handshake succeeds *)
+  nv_hs : bool;                        (* the TLS handshake succeeds *)
+  nv_stls : verdict                    (* handlers.STARTTLS(reply, extensions), if the handler object has
+                                          one (SmtpSession has none: VKeep) *)
 }.
 
 (* ------------------------------------------------------------------ session state *)
@@ -242,12 +244,22 @@ Definition tls_state (st : sstate) : sstate :=
      ex := drop_starttls (ex st);
      ed := set_env None (set_e_tls true (ed st)) |}.
 
-Definition t_command_STARTTLS (st : sstate) (arg : option bytes) (hs_ok : bool) : sres :=
+(* The STARTTLS hook may change the 220: a 221/421 closes, any other code refuses the command
+   and the session goes on in clear text WITH its receive buffer (what was pipelined behind
+   the refused STARTTLS are ordinary commands); the buffer is discarded only by the handshake. *)
+Definition t_command_STARTTLS (st : sstate) (arg : option bytes) (v : verdict) (hs_ok : bool) : sres :=
   if negb (x_starttls (ex st)) then s_just st 500
   else if nonempty arg then s_just st 501
   else if negb (is_some (s_ehlo (sv st))) then s_just st 503
-  else if negb hs_ok then mk_s st MCmd [220; 421] [] [] XStop true
-  else mk_s (tls_state st) MCmd [220] [] [TCall true EvTls] XNone true.
+  else
+    match apply_verdict v 220 with
+    | None => mk_s st MCmd [] [] [] XExn false
+    | Some c =>
+        if is_close c then mk_s st MCmd [c] [] [] XStop false
+        else if negb (c =? 220) then mk_s st MCmd [c] [] [] XNone false
+        else if negb hs_ok then mk_s st MCmd [220; 421] [] [] XStop true
+        else mk_s (tls_state st) MCmd [220] [] [TCall true EvTls] XNone true
+    end.
 
 (* ------------------------------------------------------------------ AUTH *)
 (* the tail of _command_AUTH once server_attempt returned credentials, + SmtpSession.AUTH *)
@@ -375,7 +387,7 @@ Section WithMechs.
   (* _handle_command on a line read in command mode *)
   Definition t_exec_cmd (nv : env) (st : sstate) (l : line) : sres :=
     match classify l with
-    | CStarttls => t_command_STARTTLS st (l_arg l) (nv_hs nv)
+    | CStarttls => t_command_STARTTLS st (l_arg l) (nv_stls nv) (nv_hs nv)
     | CAuth => t_command_AUTH nv st (l_arg l)
     | CData => t_data_start nv st (l_arg l)
     | _ => of_res (s_encrypted (sv st)) (handle_command st (cmd_item nv l))
